@@ -130,7 +130,7 @@ func runC10(c *core.Ctx, o Options) {
 				if e.Kind == "send" && hasKind(e.Kinds, "Stored") {
 					nSend++
 					if msgsCall != nil {
-						if r := an.Render(e.Args[0]); r != an.Render(msgsCall)+"#0" {
+						if r := e.R(e.Args[0]); r != an.Render(msgsCall)+"#0" {
 							bad3 = append(bad3, "SendBatch is given "+r+", not the list returned by the store")
 						}
 					}
@@ -245,10 +245,10 @@ func runC10(c *core.Ctx, o Options) {
 					bad = append(bad, "the gap is computed from the "+storageSide(e.Args[0])+" counter")
 				}
 				if e.Kind == "store" && e.Name == "SetSeqNum" {
-					if storageSide(e.Args[0]) == "incoming" && an.Render(e.Args[1]) == inc {
+					if storageSide(e.Args[0]) == "incoming" && e.R(e.Args[1]) == inc {
 						okSet = true
 					} else {
-						bad = append(bad, "SetSeqNum("+storageSide(e.Args[0])+", "+an.Render(e.Args[1])+")")
+						bad = append(bad, "SetSeqNum("+storageSide(e.Args[0])+", "+e.R(e.Args[1])+")")
 					}
 				}
 			}
